@@ -210,6 +210,12 @@ func scenOptGrid(st *ekit.Stats, tier string) {
 		add(true, "data+data:"+p, "--"+p, "--connect", "@A", "--data", "x", "-D", "y")
 		add(true, "file+file:"+p, "--"+p, "--connect", "@A", "-F", existing, "--file", existing)
 	}
+	// ... also when the first payload is the (legal) empty one
+	for _, p := range []string{"push", "rep"} {
+		add(true, "emptydata+data:"+p, "--"+p, "--connect", "@A", "--data", "", "--data", "y")
+		add(true, "emptydata+file:"+p, "--"+p, "--connect", "@A", "-D", "", "--file", existing)
+		add(true, "emptydata=+data:"+p, "--"+p, "--connect", "@A", "--data=", "-D", "y")
+	}
 	add(true, "file-missing-on-disk", "--push", "--connect", "@A", "--file", missing)
 	// option value missing
 	for _, o := range []string{"--data", "--file", "--connect", "--bind", "--count", "--recv-timeout", "--send-timeout", "--send-delay", "--send-interval", "--subscribe", "--format", "-D", "-x"} {
